@@ -10,6 +10,7 @@ the translator itself is cos(-x) = cos x, sin(-x) = -sin x when it reads `jones_
 import ast
 import re
 from pyexpr2lean import Gen, Tr, Untranslatable, load, get_def, get_const, find_returns
+from gen_c17 import straight_env, inline_locals
 
 M = 'Model.C20'
 ROTFN = 'jones_rotation_matrix'
@@ -52,11 +53,37 @@ class Interp:
     `np.cos(x)` nor `np.sin(x)` has been evaluated before — the parameters then stand for cos / sin of the new value, and
     the theorems quantify over every pair with c² + s² = 1 (this is how `theta = theta * charge` is read)."""
 
-    def __init__(self, scalar_env, angles):
+    def __init__(self, scalar_env, angles, slots=(), module=None):
         self.env = dict(scalar_env)      # python text -> Lean scalar term
         self.mats = {}                   # python name -> Lean M22 term
         self.angles = dict(angles)       # python text of an angle expression -> (cos term, sin term)
         self.rebound_angles = []
+        # free (cos, sin) parameter pairs: the first expression X whose np.cos(X) / np.sin(X) is met takes the next pair,
+        # whatever the local is called (sound: the theorems hold for every pair with c^2 + s^2 = 1, and both functions
+        # are then taken of the same X; re-binding a name inside X afterwards poisons the pair)
+        self.slots = list(slots)
+        self.module = module
+        self.depth = 0
+
+    def bind_trig(self, node):
+        for c in ast.walk(node):
+            if isinstance(c, ast.Call) and ast.unparse(c.func) in ('np.cos', 'np.sin') and len(c.args) == 1 and not c.keywords:
+                x = ast.unparse(c.args[0])
+                if f'np.cos({x})' in self.env or f'np.sin({x})' in self.env:
+                    continue
+                try:
+                    self.tr().expr(c.args[0])
+                    continue                   # an ordinary translatable argument would need cos/sin as functions: not supported
+                except Untranslatable:
+                    pass
+                if self.slots:
+                    cterm, sterm = self.slots.pop(0)
+                    self.env[f'np.cos({x})'] = cterm
+                    self.env[f'np.sin({x})'] = sterm
+
+    def scalar(self, node):
+        self.bind_trig(node)
+        return self.tr().expr(node)
 
     def tr(self):
         return Tr(self.env, 'num')
@@ -91,11 +118,44 @@ class Interp:
             return f'(rotTable {c} {s})'
         if isinstance(e, ast.Call) and ast.unparse(e.func) == '_empty_jones':
             return 'M22.zero'
+        if isinstance(e, ast.Call) and isinstance(e.func, ast.Name) and self.module is not None and self.depth < 3:
+            return self.inline(e)
         if isinstance(e, ast.BinOp) and isinstance(e.op, ast.MatMult):
             return f'(M22.mul {self.mat(e.left)} {self.mat(e.right)})'
         if isinstance(e, ast.BinOp) and isinstance(e.op, ast.Add):
             return f'(M22.add {self.mat(e.left)} {self.mat(e.right)})'
         raise Untranslatable(f'matrix expression {ast.unparse(e)[:60]}')
+
+    def inline(self, call):
+        """a call of a same-module helper that is a straight-line function returning a matrix: interpret its body with
+        the parameters bound to what the arguments mean here (matrix / angle / scalar)"""
+        h = get_def(self.module, call.func.id)
+        params = [a.arg for a in h.args.args]
+        if any(isinstance(a, ast.Starred) for a in call.args) or any(k.arg is None or k.arg not in params for k in call.keywords):
+            raise Untranslatable(f'call {ast.unparse(call)[:50]}')
+        bound = dict(zip(params, call.args))
+        bound.update({k.arg: k.value for k in call.keywords})
+        sub = Interp({k: v for k, v in self.env.items() if k in ('1j', '-1j')}, {}, module=self.module)
+        sub.depth = self.depth + 1
+        for pname, arg in bound.items():
+            text = ast.unparse(arg)
+            try:
+                sub.mats[pname] = self.mat(arg)
+                continue
+            except Untranslatable:
+                pass
+            if text in self.angles and ('-' + text) in self.angles:
+                sub.angles[pname] = self.angles[text]
+                sub.angles['-' + pname] = self.angles['-' + text]
+                continue
+            try:
+                sub.env[pname] = self.scalar(arg)
+            except Untranslatable:
+                pass                       # e.g. `shape`: unbound, any use that matters fails inside
+        term = sub.run(h.body)
+        if term is None:
+            raise Untranslatable(f'helper {call.func.id} does not return a matrix')
+        return term
 
     def run(self, stmts):
         """returns the Lean term of the returned matrix (or None if no return was met)"""
@@ -113,7 +173,7 @@ class Interp:
                     name, i, j = ent
                     if name not in self.mats:
                         raise Untranslatable(f'entry write to unknown matrix {name}')
-                    self.mats[name] = f'(M22.set {self.mats[name]} {i} {j} {self.tr().expr(st.value)})'
+                    self.mats[name] = f'(M22.set {self.mats[name]} {i} {j} {self.scalar(st.value)})'
                     continue
                 if isinstance(t, ast.Name):
                     try:
@@ -124,7 +184,7 @@ class Interp:
                     except Untranslatable:
                         pass
                     try:
-                        term = self.tr().expr(st.value)
+                        term = self.scalar(st.value)
                         self.poison(t.id)
                         self.env[t.id] = term
                         continue
@@ -138,7 +198,7 @@ class Interp:
             if isinstance(st, ast.AugAssign) and isinstance(st.target, ast.Name):
                 nm = st.target.id
                 if nm in self.mats and isinstance(st.op, ast.Mult):
-                    self.mats[nm] = f'(M22.smul {self.tr().expr(st.value)} {self.mats[nm]})'
+                    self.mats[nm] = f'(M22.smul {self.scalar(st.value)} {self.mats[nm]})'
                     continue
                 if self._angle_rebind_ok(nm, stmts[:idx]):
                     self.rebound_angles.append(ast.unparse(st))
@@ -186,7 +246,7 @@ def generate(repo):
     # ------------------------------------------------------------------ rotation matrix
     def rot():
         fn = get_def(po, ROTFN)
-        it = Interp({'np.cos(theta)': 'c', 'np.sin(theta)': 's'}, {})
+        it = Interp({}, {}, slots=[('c', 's')], module=po)
         term = it.run(fn.body)
         if term is None:
             raise Untranslatable('no return')
@@ -199,7 +259,7 @@ def generate(repo):
     # ------------------------------------------------------------------ retarder / diattenuator
     def retarder():
         fn = get_def(po, 'linear_retarder')
-        it = Interp({'np.exp(1j * retardance)': 'u'}, ANG)
+        it = Interp({'np.exp(1j * retardance)': 'u'}, ANG, module=po)
         term = it.run(fn.body)
         if term is None:
             raise Untranslatable('no return')
@@ -209,7 +269,7 @@ def generate(repo):
 
     def diatt():
         fn = get_def(po, 'linear_diattenuator')
-        it = Interp({'alpha': 'α'}, ANG)
+        it = Interp({'alpha': 'α'}, ANG, module=po)
         term = it.run(fn.body)
         if term is None:
             raise Untranslatable('no return')
@@ -237,9 +297,8 @@ def generate(repo):
     # ------------------------------------------------------------------ vector vortex retarder
     def vortex():
         fn = get_def(po, 'vector_vortex_retarder')
-        it = Interp({'np.cos(theta)': 'c', 'np.sin(theta)': 's', 'np.cos(retardance / 2)': 'ch',
-                     'np.sin(retardance / 2)': 'sh', '-1j': 'mI', '1j': '(-mI)'},
-                    {'rotate': ('cr', 'sr'), '-rotate': ('cr', '(-sr)')})
+        it = Interp({'np.cos(retardance / 2)': 'ch', 'np.sin(retardance / 2)': 'sh', '-1j': 'mI', '1j': '(-mI)'},
+                    {'rotate': ('cr', 'sr'), '-rotate': ('cr', '(-sr)')}, slots=[('c', 's')], module=po)
         term = it.run(fn.body)
         if term is None:
             raise Untranslatable('no return')
@@ -330,7 +389,7 @@ def generate(repo):
         out = m.group(5) or ''.join(sorted([ra, ca, rb, cb]))
         (ret,) = find_returns(fn)
         want = '.reshape([*a.shape[:-2],a.shape[-2]*b.shape[-2],a.shape[-1]*b.shape[-1]])'
-        if not ast.unparse(ret).replace(' ', '').endswith(want):
+        if not ast.unparse(inline_locals(fn, ret)).replace(' ', '').endswith(want):
             return None
         return out == ra + rb + ca + cb
     g.fact('broadcastKronIsKronecker', 'prysm/x/polarization.py:broadcast_kron', kron_form)
@@ -372,15 +431,13 @@ def generate(repo):
         fn = get_def(po, 'pauli_coefficients')
         env = {f'jones[..., {i}, {j}]': f'J.{"abcd"[2 * i + j]}' for i in (0, 1) for j in (0, 1)}
         env.update({'1j': 'I', '-1j': '(-I)'})
-        vals = {}
-        for st in fn.body:
-            if isinstance(st, ast.Assign) and isinstance(st.targets[0], ast.Name):
-                vals[st.targets[0].id] = Tr(env, 'num').expr(st.value)
+        env = straight_env(fn.body, env)
         (ret,) = find_returns(fn)
-        if ast.unparse(ret) != '(c0, c1, c2, c3)':
+        if not (isinstance(ret, ast.Tuple) and len(ret.elts) == 4):
             raise Untranslatable(f'return {ast.unparse(ret)}')
-        return ('def pauliCoeff (I : K) (J : M22 K) : Nat → K\n' + ''.join(f'  | {k} => {vals[f"c{k}"]}\n' for k in (0, 1, 2)) +
-                f'  | _ => {vals["c3"]}')
+        vals = [Tr(env, 'num').expr(e) for e in ret.elts]
+        return ('def pauliCoeff (I : K) (J : M22 K) : Nat → K\n' + ''.join(f'  | {k} => {vals[k]}\n' for k in (0, 1, 2)) +
+                f'  | _ => {vals[3]}')
     g.item('pauli_coefficients', 'prysm/x/polarization.py:pauli_coefficients', lambda: get_def(po, 'pauli_coefficients'),
            pauli_coeffs, f'def pauliCoeff (I : K) (J : M22 K) : Nat → K := {M}.pauliCoeff I J')
 
@@ -394,31 +451,52 @@ def generate(repo):
                 ent = _entry_target(st.value) if isinstance(st.value, ast.Subscript) else None
                 if ent and ent[0] == 'wavefunction':
                     names[st.targets[0].id] = (ent[1], ent[2])
+
+        def is_prop_call(node, lv):
+            return isinstance(node, ast.Call) and ast.unparse(node.func) == 'prop_func' and node.args \
+                and ast.unparse(node.args[0]) == lv
+
+        reads = None
+        slot_of = {}            # python text of "result k" -> k
         loops = [st for st in wr.body if isinstance(st, ast.For)]
-        if len(loops) != 1 or not isinstance(loops[0].iter, ast.List):
-            raise Untranslatable('component loop')
-        lv = ast.unparse(loops[0].target)
-        body = loops[0].body
-        # every component is propagated by prop_func(<component>, ...) and appended, nothing else happens in the loop
-        if len(body) == 2 and isinstance(body[0], ast.Assign) and isinstance(body[0].value, ast.Call) \
-                and ast.unparse(body[0].value.func) == 'prop_func' and body[0].value.args \
-                and ast.unparse(body[0].value.args[0]) == lv \
-                and ast.unparse(body[1]).replace(' ', '') == f'tmp.append({ast.unparse(body[0].targets[0])})':
-            pass
-        elif len(body) == 1 and ast.unparse(body[0]).replace(' ', '').startswith(f'tmp.append(prop_func({lv},'):
-            pass
-        else:
-            raise Untranslatable(f'loop body {[ast.unparse(b)[:40] for b in body]}')
-        reads = [names[ast.unparse(e)] for e in loops[0].iter.elts]
+        if len(loops) == 1 and isinstance(loops[0].iter, (ast.List, ast.Tuple)):
+            # form (a): for E in [J00, ...]: ret = prop_func(E, ...); tmp.append(ret)
+            lv = ast.unparse(loops[0].target)
+            body = loops[0].body
+            if len(body) == 2 and isinstance(body[0], ast.Assign) and is_prop_call(body[0].value, lv) \
+                    and ast.unparse(body[1]).replace(' ', '') == f'tmp.append({ast.unparse(body[0].targets[0])})':
+                pass
+            elif len(body) == 1 and isinstance(body[0], ast.Expr) and isinstance(body[0].value, ast.Call) \
+                    and ast.unparse(body[0].value.func) == 'tmp.append' and is_prop_call(body[0].value.args[0], lv):
+                pass
+            else:
+                raise Untranslatable(f'loop body {[ast.unparse(b)[:40] for b in body]}')
+            reads = [names[ast.unparse(e)] for e in loops[0].iter.elts]
+            slot_of = {f'tmp[{k}]': k for k in range(len(reads))}
+        elif not loops:
+            # form (b): R0, R1, R2, R3 = [prop_func(E, ...) for E in (J00, ...)]   (or tmp = [...])
+            for st in wr.body:
+                if isinstance(st, ast.Assign) and isinstance(st.value, (ast.ListComp, ast.GeneratorExp)) \
+                        and len(st.value.generators) == 1 and not st.value.generators[0].ifs \
+                        and isinstance(st.value.generators[0].iter, (ast.List, ast.Tuple)) \
+                        and is_prop_call(st.value.elt, ast.unparse(st.value.generators[0].target)):
+                    reads = [names[ast.unparse(e)] for e in st.value.generators[0].iter.elts]
+                    t = st.targets[0]
+                    if isinstance(t, (ast.Tuple, ast.List)) and len(t.elts) == len(reads):
+                        slot_of = {ast.unparse(e): k for k, e in enumerate(t.elts)}
+                    elif isinstance(t, ast.Name):
+                        slot_of = {f'{t.id}[{k}]': k for k in range(len(reads))}
+        if reads is None or not slot_of:
+            raise Untranslatable('component propagation not recognised (neither a loop nor a comprehension over the components)')
         writes = {}
         for st in wr.body:
             if isinstance(st, ast.Assign):
                 ent = _entry_target(st.targets[0])
                 if ent and ent[0] == 'out':
-                    v = st.value
-                    if not (isinstance(v, ast.Subscript) and ast.unparse(v.value) == 'tmp' and isinstance(v.slice, ast.Constant)):
+                    v = ast.unparse(st.value)
+                    if v not in slot_of:
                         raise Untranslatable(f'write {ast.unparse(st)}')
-                    writes[v.slice.value] = (ent[1], ent[2])
+                    writes[slot_of[v]] = (ent[1], ent[2])
         if sorted(writes) != list(range(len(reads))):
             raise Untranslatable(f'write slots {sorted(writes)}')
         fmt = lambda ps: '[' + ', '.join(f'({i}, {j})' for i, j in ps) + ']'
